@@ -455,6 +455,12 @@ func runC16(c *Ctx) {
 		c.check(n >= 1, "R12", "last-decode sites below ReadDir", p.Pos(rd.Pos()), fmt.Sprintf("%d sites", n), "no decode site found below ReadDirContext")
 	}
 
+	checkDecodedFlagsReachTheLadder(c, "R13")
+	checkStartDirectoryIsTheBase(c, "R15")
+	// R14 (shared with C05.R3/C10.R5): a lister's end of directory — io.EOF, bare or wrapped the way filelist itself
+	// accepts it — is answered with SSH_FX_EOF, which is what ends the client's loop successfully
+	c.withRule("R14", func() { checkErrorShapes(c, "R3") })
+
 	// ---------- R4 client loop ----------
 	if rd := p.Func("(*Client).ReadDirContext"); rd == nil {
 		c.missing("R4", "(*Client).ReadDirContext")
